@@ -93,7 +93,7 @@ CHECKS = {
             "shapes and limits listed in the evidence", "§5 C41"),
     "C22": ("mc-store", MC, "explicit-state BFS (E3) over real store instructions in the in-process runtime, invariant after every successful instruction",
             "All interleavings to the stated depth of create/execute/close of deposits and withdrawals by owners, the keeper and a stranger with clock advances and feed re-publication, over two markets sharing both vaults (plus seeded liquidity): after every successful instruction each market's recorded balances cover liquidity+impact+fees and collateral, and the sum over markets sharing a vault does not exceed the vault's token balance.",
-            "svm-lite runtime trusted; swaps, shifts, position orders, liquidations and fee claims are not in the action alphabet yet", "§6 C22"),
+            "svm-lite runtime trusted; fee claims and keeper transfers are explored from the real world and from fabricated position-like start states (collateral sums, accrued fees); swaps, shifts, position orders and liquidations are not in the action alphabet", "§6 C22"),
     "C23": ("mc-store", MC, "explicit-state BFS (E3) over real store instructions in the in-process runtime against the action-lifecycle protocol",
             "Same exploration as C22: the action-state transition relation (Pending->Completed/Cancelled exactly once, terminal absorbing), who may execute/close in which state, escrow contents returned to the owner on close, consumed escrow on completion, execution-fee and rent refunds, and untouched markets/vaults/escrow after a cancelled execution are checked on every transition.",
             "deposits and withdrawals only (orders, shifts and GLV actions share the Close/ActionHeader code but are not explored)", "§6 C23"),
@@ -115,6 +115,21 @@ CHECKS = {
     "C32": ("mc-store", E1, "exhaustive product enumeration (E1) of the builder-fee helpers against exact big-integer arithmetic",
             "compute/clamp/charge-on-increment/estimate-for-withdrawal over boundary and dense sizes x factors x min/max prices x increments x withdrawals x swap types: fee = ceil(floor(size*factor/UNIT)/price_min), split exact or refused, estimate = withdrawal + fee.",
             "settlement (settle_builder_fee instruction) is not explored yet; helper functions only", "§5 C32"),
+    "C20": ("mc-store", MC, "E1 matrices plus explicit-state BFS (E3-light) over real store instructions against the keeper permission policy",
+            "Every MarketConfigKey and MarketConfigFlag x {not updatable, updatable} x {market keeper, config keeper, stranger} through update_market_config(_flag) and set_market_config_updatable; BFS over permission changes, updates by every actor, per-owner config buffers with updatable/mixed/empty entries, buffer application and clock advances across expiry; rejected calls leave the market account byte-identical.",
+            "svm-lite runtime trusted; two keys and one flag in the history alphabet", "§5 C20"),
+    "C21": ("mc-store", MC, "explicit-state BFS (E2) over revertible operations on a real Market account through RevertibleMarket",
+            "Every sequence of operations (begin, up to two writes with a full read after each, commit or abandon) to the stated depth for ten runs whose write alphabets together cover all pool kinds, the clocks and other-state fields: reads at begin equal storage, reads after writes equal the overlay, storage changes only at commit and then equals the overlay; state key = full account bytes.",
+            "operations cannot overlap (account borrow); RevertibleLiquidityMarket mint/burn deferral not covered", "§5 C21"),
+    "C33": ("mc-store", MC, "explicit-state BFS (E3) over the real user/referral instructions against a reference relation",
+            "All sequences of prepare_user, initialize_referral_code, set_referrer (also with a forged referrer account), transfer, cancel and accept by three users over two codes to the stated depth (the reference state space is closed); outcomes and account contents compared with the reference; write-once referrer, no self referral, exactly one holder per code and ownership moving only on acceptance are evaluated on the accounts after every step.",
+            "svm-lite runtime trusted", "§5 C33"),
+    "C38": ("mc-store", E1, "exhaustive product enumeration (E1) of the APY and reward functions against exact big-integer references",
+            "compute_time_weighted_apy over six gradients x stake starts x durations around every week boundary against the exact average of weekly buckets and a literal per-second sum; calculate_gt_reward_amount over boundary values x rates x integrals: formula, saturation, monotonicity, negative durations rejected.",
+            "the unstake instruction (partial/full exit, claims disabled) is not explored; durations bounded by 10^17 s", "§5 C38"),
+    "C39": ("mc-store", MC, "explicit-state BFS (E2) over trade sequences on the real update_leaderboard plus E1 on extend_competition_time",
+            "Every sequence of counted trades by seven traders with three or four volume increments to the stated depth: at most five distinct entries, sorted, latest volumes, filled with the top traders, excluded traders not above the last entry; extensions over end time/duration/cap/trigger time at the i64 limits never move the end earlier nor past max(old end, now + cap).",
+            "merge-window/threshold bookkeeping of the on_executed handler is not explored", "§5 C39"),
 }
 
 NOT_YET = "no check built yet in this round (planned in DESIGN.md); not claimed"
